@@ -338,6 +338,99 @@ def rule_g(ctx):
                 break
 
 
+
+# --------------------------------------------------------------------- R01.y
+_PERSISTING_CALLS = {"setattr", "__setattr__", "setdefault", "__setitem__", "update"}
+_CACHE_DECORATORS = {"cache", "lru_cache", "cached_property", "functools.cache", "functools.lru_cache", "functools.cached_property"}
+
+
+def _persistent_stores(f):
+    """Constructs of ``f`` that keep something from one call to the next."""
+    out = []
+    for d in f.decorators:
+        if d.split("(")[0] in _CACHE_DECORATORS:
+            out.append((f.node, "memoising decorator @%s" % d))
+    for n in ast.walk(f.node):
+        if isinstance(n, (ast.Global, ast.Nonlocal)):
+            out.append((n, "`%s`" % norm(n)))
+        elif isinstance(n, (ast.Attribute, ast.Subscript)) and isinstance(n.ctx, (ast.Store, ast.Del)):
+            base = n.value
+            while isinstance(base, (ast.Attribute, ast.Subscript)):
+                base = base.value
+            out.append((n, "store `%s`" % norm(n)))
+        elif isinstance(n, ast.Call) and isinstance(n.func, (ast.Attribute, ast.Name)):
+            nm = n.func.attr if isinstance(n.func, ast.Attribute) else n.func.id
+            if nm in _PERSISTING_CALLS:
+                out.append((n, "call `%s`" % norm(n)[:80]))
+    return out
+
+
+def lazy_type_groups_are_stateless(ctx, rule):
+    """The lazy type groups (``_int_types``, ``_dt_types``, ...) are what the
+    type tests of Integer, Date, DateRange... are made against; their members
+    depend on what is imported *now* (``sys.modules``).  A verdict that depends
+    only on the value and the declared constraints needs the group to be
+    re-evaluated by every test: the metaclass' ``__instancecheck__`` /
+    ``__subclasscheck__`` reach a ``types()`` call on every path and nothing
+    in the metaclass, its base class or any ``@gen_types`` generator keeps
+    state from one test to the next."""
+    meta = ctx.repo.cls("param._utils._GeneratorIsMeta")
+    funcs = []
+    for name, fs in meta.methods.items():
+        funcs.extend(fs)
+    base = ctx.repo.classes.get("param._utils._GeneratorIs")
+    if base is not None:
+        for name, fs in base.methods.items():
+            funcs.extend(fs)
+    gens = []
+    for f in ctx.repo.all_funcs("param"):
+        if any(d == "gen_types" or d.endswith(".gen_types") for d in f.decorators):
+            gens.append(f)
+    ctx.require(len(gens) >= 1, "no @gen_types generator found (the lazy type groups moved)")
+    helpers = {f.name: f for f in funcs}
+
+    def reaches_types(f, seen=()):
+        """Every path of f to a return evaluates <x>.types() (directly or through a helper of the metaclass)."""
+        cfg = ctx.facts.cfg(f)
+        marks = []
+        for n in cfg.live_nodes():
+            for c in calls_in(n):
+                if isinstance(c.func, ast.Attribute) and c.func.attr == "types":
+                    marks.append(n)
+                elif isinstance(c.func, ast.Attribute) and c.func.attr in helpers and c.func.attr not in seen and c.func.attr != f.name \
+                        and reaches_types(helpers[c.func.attr], seen + (f.name,)):
+                    marks.append(n)
+        if not marks:
+            return False
+        exits = [n for n in cfg.live_nodes() if n.kind == "stmt" and isinstance(n.ast, ast.Return)]
+        for e in exits:
+            if not any(m is e or cfg.dominates(m, e) for m in marks):
+                return False
+        return bool(exits)
+
+    for name in ("__instancecheck__", "__subclasscheck__"):
+        f = ctx.repo.method(meta.qualname, name)
+        if reaches_types(f):
+            ctx.ok(rule, f, f.node, "%s evaluates types() on every path to its verdict" % name)
+        else:
+            ctx.fail(rule, f, f.node,
+                     "_GeneratorIsMeta.%s gives a verdict without evaluating types() on that path: the members of a lazy type group "
+                     "(numpy integers, numpy datetime64 ... present once the module is imported) are not looked up by this test" % name,
+                     key="%s::verdict-without-types" % f.qualname,
+                     input="P.x = numpy.int64(3) for x = param.Integer(), numpy imported after the first validation")
+    for f in funcs + gens:
+        st = _persistent_stores(f)
+        if not st:
+            ctx.ok(rule, f, f.node, "%s keeps nothing between two type tests" % f.qualname)
+        for n, what in st:
+            ctx.fail(rule, f, n,
+                     "%s keeps state between two type tests (%s): the members of a lazy type group depend on the modules imported at "
+                     "the time of the test, so a remembered answer makes the verdict on a value depend on what was validated earlier "
+                     "(an Integer validated before numpy is imported rejects numpy.int64 for good)" % (f.qualname, what),
+                     key="%s::keeps-state" % f.qualname,
+                     input="param.Integer().… validated once; import numpy; P.x = numpy.int64(3)")
+
+
 def run(ctx):
     ctx.rule("R01.a", "every store into the value store in Parameter.__set__ is dominated by self._validate(v) on the same binding of v; overrides store only through super().__set__", floor=6)
     ctx.rule("R01.b", "the per-instance value store has exactly three writers (descriptor setter, Event reset to False, constructor copy of the class default)", floor=4)
@@ -367,6 +460,10 @@ def run(ctx):
     ctx.rule("R01.w", "namespace model (shared with R13.h): ParameterizedMetaclass.__setattr__ / _clear_params_cache, Parameters.add_parameter and the _cls_parameters property interpreted abstractly on hierarchies of up to three levels and a diamond: after every class-level assignment, add_parameter or removal, `.param[name]` of every class of the hierarchy is the very Parameter object that governs attribute access there -- a stale lookup hands `C.param.x.bounds = ...` to another Parameter than the one that validates assignments to C and its instances: the constraints in force are ignored", floor=1)
     from checks import namespace_model
     namespace_model.report(ctx, "R01.w")
+    ctx.rule("R01.y", "the lazy type groups behind Integer / Date / DateRange ... are re-evaluated by every type test: _GeneratorIsMeta.__instancecheck__ / __subclasscheck__ "
+             "evaluate types() on every path to their verdict, and neither the metaclass, its base class nor any @gen_types generator keeps state between two tests "
+             "(no attribute / item store, setattr, global, memoising decorator) -- the members depend on sys.modules at the time of the test", floor=5)
+    lazy_type_groups_are_stateless(ctx, "R01.y")
     ctx.not_decided += ["semantics of re.match / isinstance / `in` (trusted library operations: only that they are consulted is checked)",
                         "Selector membership under concurrent mutation of objects", "accept-iff-spec for value *types* (bool vs int, date vs datetime)"]
     rule_a(ctx)
